@@ -8,9 +8,9 @@ package mcp
 
 import (
 	"bufio"
-	"bytes"
 	"context"
 	"encoding/json"
+	"errors"
 	"fmt"
 	"io"
 	"os"
@@ -323,28 +323,30 @@ func (t *stdioClientTransport) readLoop() {
 		}
 	}()
 
-	// Messages are newline-delimited. Reading line by line (rather than with one json.Decoder,
-	// whose first syntax error is sticky) lets the loop skip a malformed line and carry on,
-	// and end - instead of spinning - when the stream fails.
+	// One json.Decoder reads message after message, however the peer lays them out (one per
+	// line as the protocol says, but also spread over several lines or without a final
+	// newline). A syntax error is sticky in a decoder, so after malformed input the rest of the
+	// line the error is on is skipped and a fresh decoder carries on with the next line; when
+	// the stream itself fails the loop ends.
 	reader := bufio.NewReader(t.stdout)
+	dec := json.NewDecoder(reader)
 	for !t.closed.Load() {
-		line, readErr := reader.ReadBytes('\n')
-		line = bytes.TrimSpace(line)
-		if len(line) == 0 {
-			if readErr != nil {
-				if readErr != io.EOF && !t.closed.Load() {
-					t.logger.Errorf("Error reading message: %v", readErr)
+		var rawMessage json.RawMessage
+		if err := dec.Decode(&rawMessage); err != nil {
+			var syntaxErr *json.SyntaxError
+			if !errors.As(err, &syntaxErr) {
+				if err != io.EOF && !t.closed.Load() {
+					t.logger.Errorf("Error reading message: %v", err)
 				}
 				break
 			}
-			continue
-		}
-		rawMessage := json.RawMessage(line)
-		if !json.Valid(rawMessage) {
-			t.logger.Errorf("Error reading message: invalid JSON line (%d bytes)", len(line))
-			if readErr != nil {
+			t.logger.Errorf("Error reading message: %v", err)
+			rest := bufio.NewReader(io.MultiReader(dec.Buffered(), reader))
+			if _, skipErr := rest.ReadBytes('\n'); skipErr != nil {
 				break
 			}
+			reader = rest
+			dec = json.NewDecoder(reader)
 			continue
 		}
 
